@@ -318,19 +318,37 @@ def writeRow (f : CsvFmt) (geo : Bool) (pf : List Tok) (O : List (Int × Nat)) (
   let a := afs.foldl (fun acc v => acc ++ [f.sep] ++ intStr v) []
   printInOrder x y z t a O f.sep
 
-/-- header block of `writeToFile` when `fmt.header > 0`: never reached on this tree, because the
-function stores its `h` argument in `fmt.h` and then tests `fmt.header`, which keeps the value 0 of
-`TrackFormat({'ext': 'CSV'})`. The model therefore has no header lines; `hdrEff` documents it. -/
+/-- `fmt.header` as `writeToFile` sees it: the function stores its `h` argument in `fmt.h` and then tests
+`fmt.header`, which keeps the value 0 of `TrackFormat({'ext': 'CSV'})`: on this tree the header block below
+is never written (known finding `csv-header-not-written`). If the writer is repaired (`fmt.header = h`,
+`fmt.cmt`, `fmt.time_ini`) this becomes `h` and nothing else changes in the model. -/
 def hdrEff (_h : Nat) : Nat := 0
 
+/-- header names of the coordinate columns by `track.getSRID().upper()` -/
+def hdrNames (srid : Str) : Str × Str × Str :=
+  if srid = "GEO".toList then ("lon".toList, "lat".toList, "h".toList)
+  else if srid = "ECEF".toList then ("X".toList, "Y".toList, "Z".toList)
+  else ("E".toList, "N".toList, "U".toList)
+
+/-- the header block of `writeToFile` (`fmt.header > 0`): srid line (`track.getSRID()` is `ENU`, `Geo` or
+`ECEF`), reference point (`None` for a track without base), column names in column order, each line starting
+with the comment character `#` -/
+def headerBlock (f : CsvFmt) (srid : Str) (names : List Str) (O : List (Int × Nat)) : Except String (List Str) := do
+  let sridShown := if srid = "GEO".toList then "Geo".toList else srid
+  let (a, b, c) := hdrNames srid
+  let headerAF := names.foldl (fun acc n => acc ++ [f.sep] ++ n) []
+  let l3 ← printInOrder a b (if f.idU = -1 then none else some c) (if f.idT = -1 then none else some "time".toList)
+    headerAF O f.sep
+  pure ['#' :: ("srid: ".toList ++ sridShown), '#' :: "ref point: None".toList, '#' :: l3]
+
 /-- `TrackWriter.writeToFile(track, path, id_E, id_N, id_U, id_T, separator, h, af_names)`:
-the text of the file -/
-def writeToFile (f : CsvFmt) (geo : Bool) (pf : List Tok) (h : Nat) (naf : Nat) (rows : List (Row × List Int)) :
-    Except String Str := do
+the text of the file (`srid` = `track.getSRID().upper()`, `names` = `af_names`) -/
+def writeToFile (f : CsvFmt) (geo : Bool) (pf : List Tok) (h : Nat) (naf : Nat) (rows : List (Row × List Int))
+    (srid : Str := "ENU".toList) (names : List Str := []) : Except String Str := do
   let O := orderList f naf
-  let _ := hdrEff h
+  let hdr ← if hdrEff h > 0 then headerBlock f srid names O else pure []
   let ls ← rows.mapM (fun ra => writeRow f geo pf O ra.1 ra.2)
-  pure (ls.map (· ++ ['\n'])).flatten
+  pure ((hdr ++ ls).map (· ++ ['\n'])).flatten
 
 /-- the lines of a text as `readline()` delivers them, without their newline (an empty element is
 an empty line inside the file; the end of the list is end of file) -/
